@@ -156,6 +156,9 @@ def job_boundary(pl, res, rng):
         if strength == "thorough":
             p1 = api.function_space(grid, "P", 1)
             pairs += [("P1/P1", p1, p1, p1), ("DP0/P1", dp0, p1, p1)]
+        elif kinds == ["hypersingular"]:
+            p1 = api.function_space(grid, "P", 1)
+            pairs = [("P1/P1", p1, p1, p1)]
         for pname, dom, ran, dual in pairs:
             md = abs_integrals(dom)
             mt = abs_integrals(dual)
